@@ -29,6 +29,7 @@ class VFS:
         self.files = {}
         self.links = {}        # symbolic links: path -> target path (absolute)
         self.link_mtime = {}   # the link's own (lstat) modification time; default 1
+        self.cwd = None        # virtual current directory (absolute, below ROOT): relative paths resolve against it and os.getcwd returns it
         self.dirs = {ROOT}
         self.clock = 1000
         self.ops = 0
@@ -92,9 +93,31 @@ def virt(p):
         return None
     if isinstance(p, bytes):
         return None
+    if V is not None and V.cwd is not None and isinstance(p, str) and not p.startswith("/"):
+        p = V.cwd + "/" + p
     if isinstance(p, str) and (p == ROOT or p.startswith(ROOT + "/")):
-        return os.path.normpath(p)
+        vp = os.path.normpath(p)
+        if V is not None and V.links:
+            vp = _resolve_parents(vp)
+        return vp
     return None
+
+
+def _resolve_parents(vp):
+    """A path below a directory that is a symbolic link refers to the file below the link's destination
+    (the last component is left alone: lstat/readlink/remove act on a link itself)."""
+    for _ in range(8):
+        parts = vp.split("/")
+        hit = None
+        for i in range(2, len(parts)):
+            pre = "/".join(parts[:i])
+            if pre in V.links:
+                hit = (pre, i)
+                break
+        if hit is None:
+            return vp
+        vp = os.path.normpath(V.links[hit[0]] + "/" + "/".join(parts[hit[1]:]))
+    return vp
 
 
 def _stat_result(mode, size, mtime):
@@ -182,6 +205,8 @@ def f_open(p, mode="r", *a, **k):
         parent = os.path.dirname(vp)
         if not V.is_dir(parent):
             raise FileNotFoundError(2, "No such file or directory (vfs)", vp)
+        if "x" in mode and (vp in V.files or vp in V.links or V.is_dir(vp)):
+            raise FileExistsError(17, "File exists (vfs)", vp)
         if V.tick("open-w", vp):
             if "a" in mode and vp in V.files:
                 V.files[vp][0] = V.now()
@@ -396,6 +421,12 @@ def f_rmdir(p, *a, **k):
         V.dirs.discard(vp)
 
 
+def f_getcwd():
+    if V is not None and V.cwd is not None:
+        return V.cwd
+    return REAL["getcwd"]()
+
+
 def f_fsync(fd):
     if isinstance(fd, int):
         return REAL["fsync"](fd)
@@ -415,6 +446,8 @@ def install(world):
                 unlink=os.unlink, utime=os.utime, touch=pathlib.Path.touch, mkdir=os.mkdir,
                 makedirs=os.makedirs, replace=os.replace, rename=os.rename, fsync=os.fsync,
                 scandir=os.scandir, lstat=os.lstat, readlink=os.readlink, rmtree=__import__('shutil').rmtree, rmdir=os.rmdir)
+    REAL["getcwd"] = os.getcwd
+    os.getcwd = f_getcwd
     os.stat = f_stat
     builtins.open = f_open
     io.open = f_open
@@ -455,6 +488,8 @@ def uninstall():
     os.scandir = REAL["scandir"]
     os.lstat = REAL["lstat"]
     os.readlink = REAL["readlink"]
+    if os.getcwd is f_getcwd:
+        os.getcwd = REAL["getcwd"]
     os.rmdir = REAL["rmdir"]
     __import__('shutil').rmtree = REAL["rmtree"]
     _INSTALLED[0] = False
